@@ -14,7 +14,7 @@ REPO = "/repo"
 WORKROOT = "/tmp/mutsweep"
 PROPS = ["C%02d" % i for i in range(1, 21)]
 SRC_GLOBS = ["konst/src/**/*.rs", "konst_kernel/src/**/*.rs", "konst_proc_macros/src/**/*.rs"]
-SKIP_PARTS = ("/tests", "priv_string_tests", "utils_tests", "/chr/tests", "test_utils", "docs/")
+SKIP_PARTS = ("/tests", "_tests.rs", "priv_string_tests", "utils_tests", "/chr/tests", "test_utils", "docs/", "__for_cmp_impls.rs")
 
 OPS = [
     (r"(?<![<>=!\-])<=(?!=)", "<"), (r"(?<![<>=!\-&])<(?![<=])(?=\s)", "<="),
@@ -103,8 +103,8 @@ def run_mutant(slot, mut, idx):
         res["status"] = "reported"
         return res
     # no check reported it: ask the repository's tests
-    rc, out = sh("cargo test --workspace --no-fail-fast --offline 2>&1 | grep -E '^test .*FAILED|^error' | grep -v priv_string_tests::invalid_ | head -5", cwd=wt, env=env)
-    rc3, out3 = sh("cargo test --offline -p konst --features 'rust_latest_stable alloc' --no-fail-fast 2>&1 | grep -E '^test .*FAILED|^error' | grep -v priv_string_tests::invalid_ | head -5", cwd=wt, env=env)
+    rc, out = sh("cargo test --workspace --no-fail-fast --offline 2>&1 | grep -E '^test .* FAILED$|^error(\\[E[0-9]+\\])?: ' | grep -v -E 'priv_string_tests::invalid_|error: test failed|error: [0-9]+ target' | head -8", cwd=wt, env=env)
+    rc3, out3 = sh("cargo test --offline -p konst --features 'rust_latest_stable alloc' --no-fail-fast 2>&1 | grep -E '^test .* FAILED$|^error(\\[E[0-9]+\\])?: ' | grep -v -E 'priv_string_tests::invalid_|error: test failed|error: [0-9]+ target' | head -8", cwd=wt, env=env)
     failed = [l for l in (out + out3).splitlines() if l.strip()]
     res["tests_failed"] = failed[:6]
     res["status"] = "MISS" if failed else "SURVIVOR"
